@@ -45,6 +45,13 @@ Proof.
     try (intros z [<-|[]]; cbn; discriminate); intros z [].
 Qed.
 
+(* a callback that raises on the leaf 6, keeps everything else *)
+Definition ex_raising_visit : mvisit_fn :=
+  fun _ _ v => match v with VLeaf 6 => None | _ => Some (Put None None) end.
+Lemma ex_reraise_ok :
+  exists lg, remap (Some ex_raising_visit) true [] ex_tree = Fail VisitError lg /\ length lg = 9.
+Proof. eexists. split; [vm_compute; reflexivity|reflexivity]. Qed.
+
 (* t = (5,); [t, t] *)
 Definition ex_dag : obj := ONode 0 KList [(KI 0, ONode 1 KTuple [(KI 0, OLeaf 5)]); (KI 1, ORef 1 KTuple)].
 Lemma ex_dag_ok :
